@@ -129,6 +129,9 @@ pub enum Action {
     /// the network behaves for `secs` seconds: every 10 ms all clocks advance together, every
     /// node's process() runs and all in-flight messages are delivered in FIFO order
     Heal { secs: u8 },
+    /// like Heal, but for `secs` seconds every message between the two sides of the partition
+    /// (`mask` bit i = side of node i) is lost, requests and responses alike
+    Partition { mask: u8, secs: u8 },
 }
 
 #[derive(Clone, Debug, Serialize, Deserialize)]
@@ -283,7 +286,7 @@ impl Sim {
             }
         }
         vclock::set_current(dst);
-        let before = self.nodes[dst].storage.entries.len();
+        let before = self.nodes[dst].storage.entries.clone();
         let response = block_on(self.nodes[dst].request(r));
         self.delivered += 1;
         if kind == 3 && response.v_ok() {
@@ -292,7 +295,7 @@ impl Sim {
             }
             self.votes.insert((dst, r.v_term()), src);
         }
-        if kind == 0 && divergent && response.v_ok() && self.nodes[dst].storage.entries.len() != before {
+        if kind == 0 && divergent && response.v_ok() && self.nodes[dst].storage.entries != before {
             self.divergent_appends += 1;
         }
         self.trace.push(format!(
@@ -398,7 +401,8 @@ impl Sim {
                     Err(e) => self.trace.push(format!("  response handler error {e:?}")),
                 }
             }
-            Action::Heal { secs } => self.heal(*secs),
+            Action::Heal { secs } => self.heal(*secs, 0),
+            Action::Partition { mask, secs } => self.heal(*secs, *mask),
             Action::Append { node, data } => {
                 // only at a node that believes it is the leader (what forward_to_leader enforces)
                 let leaders: Vec<usize> = (0..self.n).filter(|i| self.nodes[*i].leader() == Some(*i as u64)).collect();
@@ -420,8 +424,14 @@ impl Sim {
         }
     }
 
-    fn heal(&mut self, secs: u8) {
-        self.trace.push(format!("network healthy for {secs} s"));
+    fn heal(&mut self, secs: u8, mask: u8) {
+        let side = |i: usize| (mask >> i) & 1;
+        let split = (0..self.n).any(|i| side(i) != side(0));
+        if split {
+            self.trace.push(format!("network partitioned for {secs} s: {:?} | {:?}", (0..self.n).filter(|i| side(*i) == 0).collect::<Vec<_>>(), (0..self.n).filter(|i| side(*i) == 1).collect::<Vec<_>>()));
+        } else {
+            self.trace.push(format!("network healthy for {secs} s"));
+        }
         let start = self.trace.len();
         for round in 0..(secs as u64 * 100) {
             // keep the trace readable: only the first and last lines of a healthy period stay
@@ -432,11 +442,16 @@ impl Sim {
                 self.trace.extend(tail);
             }
             let mut guard = 0;
-            while self.in_flight() > 0 && guard < 10_000 {
+            while self.in_flight() > 0 && guard < 64 {
                 guard += 1;
                 let ch = self.channels();
                 if let Some((s, d)) = ch.first().cloned() {
                     let r = self.req[s][d].pop_front().unwrap();
+                    if side(s) != side(d) {
+                        self.faults += 1;
+                        self.trace.push(format!("drop request {s}->{d} (partition)"));
+                        continue;
+                    }
                     self.trace.push(format!("deliver {s}->{d}"));
                     if let Some(resp) = self.process_request(s, d, &r) {
                         self.resp[s].push_back((r, resp));
@@ -636,6 +651,7 @@ fn action(nodes: u8, adversarial: bool) -> BoxedStrategy<Action> {
         (12, (any::<u16>(), 0u8..3).prop_map(|(node, pos)| Action::ProcessResponse { node, pos }).boxed()),
         (5, (any::<u16>(), any::<u8>()).prop_map(|(node, data)| Action::Append { node, data }).boxed()),
         (1, (1u8..6).prop_map(|secs| Action::Heal { secs }).boxed()),
+        (2, (1u8..31, 1u8..8).prop_map(|(mask, secs)| Action::Partition { mask, secs }).boxed()),
     ];
     if adversarial {
         alts.push((3, any::<u16>().prop_map(|chan| Action::Duplicate { chan }).boxed()));
@@ -755,7 +771,7 @@ fn exhaustive(ctx: &mut Ctx, which: Which, depth: usize, campaign: &str) {
     let mut states = 0u64;
     let mut transitions = 0u64;
     let mut sample: Option<Schedule> = None;
-    let budget = ctx.tier.pick(400_000u64, 6_000_000u64);
+    let budget = ctx.tier.pick(3_000_000u64, 12_000_000u64);
     while let Some(prefix) = stack.pop() {
         if executions >= budget {
             break;
@@ -823,7 +839,7 @@ fn exhaustive(ctx: &mut Ctx, which: Which, depth: usize, campaign: &str) {
 }
 
 fn safety_property(ctx: &mut Ctx, which: Which, name: &'static str, name_b: &'static str) {
-    let cases = ctx.tier.pick(6000, 300_000);
+    let cases = ctx.tier.pick(80_000, 1_500_000);
     let max_len = ctx.tier.pick(70usize, 250usize);
     replay_saved::<Schedule, _>(ctx, name, case_for(which, false));
     // pass A: unrestricted generator; listed known findings are counted and the campaign goes on
@@ -832,7 +848,7 @@ fn safety_property(ctx: &mut Ctx, which: Which, name: &'static str, name_b: &'st
     if !ctx.known.is_empty() {
         run_campaign(ctx, CampaignCfg { name: name_b, cases, max_shrink_iters: 800, max_restarts: 1 }, move || schedule(max_len), case_for(which, true));
     }
-    let depth = ctx.tier.pick(7, 10);
+    let depth = ctx.tier.pick(8, 10);
     exhaustive(ctx, which, depth, name);
 }
 
